@@ -1029,6 +1029,33 @@ free_task_ht(void)
 }
 
 static int
+fdput_text(const char *prop, const char *val)
+{
+/* print PROP:VAL\n, escaping in VAL what echsx's parser will unescape */
+	if (UNLIKELY(fdwrite(prop, strlen(prop)) < 0)) {
+		return -1;
+	}
+	fdputc(':');
+	for (const char *vp = val ?: ""; *vp; vp++) {
+		switch (*vp) {
+		case '\\':
+			fdputc('\\');
+			fdputc('\\');
+			break;
+		case '\n':
+			fdputc('\\');
+			fdputc('n');
+			break;
+		default:
+			fdputc(*vp);
+			break;
+		}
+	}
+	fdputc('\n');
+	return 0;
+}
+
+static int
 vtodoify(int ofd, _task_t t)
 {
 	static const char vcal_hdr[] = "\
@@ -1059,8 +1086,8 @@ END:VTODO\n";
 	}
 
 
-	rc -= fdprintf("UID:%s\n", obint_name(t->t->oid)) < 0;
-	rc -= fdprintf("SUMMARY:%s\n", t->t->cmd) < 0;
+	rc -= fdput_text("UID", obint_name(t->t->oid)) < 0;
+	rc -= fdput_text("SUMMARY", t->t->cmd) < 0;
 	if (UNLIKELY(rc < 0)) {
 		goto out;
 	}
@@ -1079,8 +1106,8 @@ END:VTODO\n";
 
 		rc -= fdprintf("X-ECHS-SETUID:%u\n", (uid_t)run_as.u) < 0;
 		rc -= fdprintf("X-ECHS-SETGID:%u\n", (gid_t)run_as.g) < 0;
-		rc -= fdprintf("X-ECHS-SHELL:%s\n", run_as.sh) < 0;
-		rc -= fdprintf("LOCATION:%s\n", run_as.wd) < 0;
+		rc -= fdput_text("X-ECHS-SHELL", run_as.sh) < 0;
+		rc -= fdput_text("LOCATION", run_as.wd) < 0;
 	}
 	if (UNLIKELY(rc < 0)) {
 		goto out;
@@ -1106,16 +1133,16 @@ END:VTODO\n";
 	rc -= fdprintf("X-ECHS-MAIL-OUT:%u\n", (unsigned int)t->t->mailout) < 0;
 	rc -= fdprintf("X-ECHS-MAIL-ERR:%u\n", (unsigned int)t->t->mailerr) < 0;
 	if (t->t->in) {
-		rc -= fdprintf("X-ECHS-IFILE:%s\n", t->t->in) < 0;
+		rc -= fdput_text("X-ECHS-IFILE", t->t->in) < 0;
 	}
 	if (t->t->out) {
-		rc -= fdprintf("X-ECHS-OFILE:%s\n", t->t->out) < 0;
+		rc -= fdput_text("X-ECHS-OFILE", t->t->out) < 0;
 	}
 	if (t->t->err) {
-		rc -= fdprintf("X-ECHS-EFILE:%s\n", t->t->err) < 0;
+		rc -= fdput_text("X-ECHS-EFILE", t->t->err) < 0;
 	}
 	if (t->t->org) {
-		rc -= fdprintf("ORGANIZER:%s\n", t->t->org) < 0;
+		rc -= fdput_text("ORGANIZER", t->t->org) < 0;
 	} else if (hnamez) {
 		/* singleton, extend mailfrom by +HOSTNAME */
 		const int hnamei = hnamez;
@@ -1126,7 +1153,7 @@ END:VTODO\n";
 	}
 	for (size_t j = 0U, natt = t->t->att ? t->t->att->nl : 0U;
 	     j < natt; j++) {
-		rc -= fdprintf("ATTENDEE:%s\n", t->t->att->l[j]) < 0;
+		rc -= fdput_text("ATTENDEE", t->t->att->l[j]) < 0;
 	}
 	if (UNLIKELY(rc < 0)) {
 		goto out;
